@@ -12,6 +12,10 @@ NOTE_NOW = ("Trusted: rustc nightly MIR pretty-printer, the MIR->SMT translator 
             "unit-test vectors and random vectors), z3. Stub: clock_gettime_safe returns an arbitrary in-domain timespec or an error. Floats: "
             "binary64 enclosure (relative 2^-53 per operation), hence the 2^-49 relative tolerance on the growth term. Domain: timestamps within "
             "+-68 years, tv_nsec in [0,1e9), bound < 2^60.")
+NOTE_D = ("Trusted: MIR pretty-printer, MIR->SMT translator (differentially validated every run against the natively compiled function through the cfg-gated re-exports), z3. "
+          "Stubs: std::time (SystemTime::elapsed, Duration constructors/comparison) as exact integer nanoseconds; <f64 as From<ChronyFloat>>::from returns an arbitrary finite double; "
+          "tracing macros replaced by an empty-bodied shim crate in the analysed build; in C08/C09 extract_bound_from_tracking and ShmWrite::write are environment. "
+          "Virtual calls are dispatched on the concrete type recorded at the unsizing cast.")
 NOTE_W = ("Trusted: MIR pretty-printer, the event extractor, the RC11 encoding (exact for one writer + read-only readers), z3. Assumed: plain and "
           "volatile record accesses behave as per-word relaxed atomics (racy plain accesses are UB under the letter of the model); one writer at a "
           "time; SeqCst treated as AcqRel. Stubs: open/mmap of the segment (one region at offset 0). Bounds as listed in the evidence; calls that need "
@@ -30,6 +34,14 @@ CHECKS = {
                  "normalisation and the growth law (to 1 ns + 2^-49 relative), plus the 2-safety claim that the half-width is monotone in age.", NOTE_NOW, TECH_M),
     'C06': ('M', "All inputs of the stated domain: the status returned by now() is proved, per return path, to obey the four decay/pass-through clauses for every ordering of the monotonic "
                  "reading against as_of, as_of+5s and void_after (exact integer nanoseconds, so the +-1 ns neighbours are covered).", NOTE_NOW, TECH_M),
+    'C07': ('M', "All finite wire values of the stated range: for every return path of extract_bound_from_tracking the solver proves bound >= 0, bound >= (|offset|+dispersion+delay/2)*1e9 and "
+                 "bound < that sum rounded up (+2^-49 relative enclosure tolerance); the PHC term is checked through the updater (C08).", NOTE_D, TECH_M),
+    'C08': ('M', "All histories of 1..3 (quick) / 1..4 (thorough) poll outcomes from a fresh daemon, each outcome with arbitrary (bound, class, PHC term, as_of), through the real ShmUpdater and the "
+                 "status FSM's vtable: after every step exactly one record is published and it carries the latest synchronised measurement, void_after = as_of+1000 s, the configured drift, and "
+                 "(once synchronised) the class of the latest outcome; plus one inductive step from an arbitrary updater state for clauses (a)-(c).", NOTE_D, TECH_M),
+    'C09': ('M', "Same symbolic histories as C08: in every history prefix without a synchronised report the published status is Unknown.", NOTE_D, TECH_M),
+    'C10': ('M', "All 65536 leap values, every non-negative finite update interval up to 2^40 s, every reference-time age of either sign: the class returned by extract_bound_from_tracking equals the "
+                 "documented one (within 1 ns of the eight-interval threshold either neighbouring class is accepted: ages and Durations have 1 ns resolution).", NOTE_D, TECH_M),
     'C11': ('M+W', "For all 65536 start values (symbolic): the two values write() stores into the generation obey the protocol (odd in flight, even non-zero different final, wrap to 2, "
                    "continue from an odd value), inductively; and under RC11 a conforming third-party reader (acquire fence / acquire load) never sees data of an update under the previous "
                    "even generation, nor the final generation before the data (N <= 2/3 updates).", NOTE_W, TECH_W),
